@@ -1,4 +1,5 @@
 """C14 — include-guard validation follows the file name (DESIGN §4.14)."""
+import os
 import time
 
 from .. import adapters, core, prog
@@ -7,7 +8,7 @@ from ..prog import Line, Lx, SP
 
 RULE = ("header base names over [a-z0-9_.] (dots and underscores anywhere) x generated conforming header bodies x guard variants G0..G8 of "
         "DESIGN §4.14; the expected symbol is computed by the harness (upper-case, '.'->'_'); oracle: G0 no HEADER_PROT_* diagnostic; G1..G6 the "
-        "listed code present (G5/G6: the stray declaration up to 40 comment lines away from the guard); G7 (no guard at all) some HEADER_PROT_*; G8 (every variant under a .c name) none; non-trivial = every "
+        "listed code present (G5/G6: the stray declaration up to 40 comment lines away from the guard); G7 (no guard at all) some HEADER_PROT_*; G8 (every variant under a .c name) none; G9 (a quarter of the cases: G0 and G1 written to disk under another name and read through a symbolic link carrying the header's name) the same HEADER_PROT_* set as in memory; non-trivial = every "
         "(name, body, variant) triple, distinct by SHA-1 of name+text")
 
 EXPECT = {"G1": "HEADER_PROT_NAME", "G2": "HEADER_PROT_UPPER", "G3a": "HEADER_PROT_NODEF", "G3b": "HEADER_PROT_NODEF", "G4": "HEADER_PROT_MULT",
@@ -130,12 +131,40 @@ def check(camp, p, p7, salt):
                 camp.fail("C14|%s|missing-%s" % (v, EXPECT[v]), "guard variant %s: expected %s, got %s" % (v, EXPECT[v], got), case)
 
 
+def via_symlink(name, text, target):
+    """the header on disk under `target`, reached through a symbolic link called `name`: the tool reads it itself"""
+    with adapters.scratch("nv-c14-") as d:
+        adapters.write_tree(d, {"store/" + target: text})
+        os.makedirs(os.path.join(d, "inc"))
+        link = os.path.join(d, "inc", name)
+        os.symlink(os.path.join(d, "store", target), link)
+        return adapters.analyse(link, text, from_disk=True)
+
+
+def check_link(camp, p, salt):
+    """G9: the guard follows the name the file was *given* — a link whose target is called something else changes nothing"""
+    target = ["blob%d.h" % (salt % 89), "a1b2c3.h", "x" + p.name, p.name[:-2] + ".c"][salt % 4]
+    for v in ("G0", "G1"):
+        q = variant(p, v, salt)
+        if q is None:
+            continue
+        ref = prot(adapters.analyse(p.name, q.text))
+        r = via_symlink(p.name, q.text, target)
+        camp.case("link\0" + target + "\0" + p.name + "\0" + q.text, True)
+        camp.count("G9:" + v)
+        if r.status in ("FATAL", "CRASH") or prot(r) != ref:
+            camp.fail("C14|G9|symlink|%s" % v, "%s reached through a link to %s: %s, in memory under its own name: %s" % (p.name, target, r.status if r.status in ("FATAL", "CRASH") else prot(r), ref),
+                      {"name": p.name, "text": q.text, "variant": "G9", "as_c": False, "target": target})
+
+
 def shard(seed, n):
     camp = core.Campaign()
 
     def body(v):
         p, p7, salt = v
         check(camp, p, p7, salt)
+        if salt % 4 == 0:
+            check_link(camp, p, salt)
         if len(camp.samples) < 4 and camp.evaluations % 37 <= 17:
             camp.samples.append({"name": p.name, "symbol": prog.guard_symbol(p.name)})
 
@@ -147,6 +176,10 @@ def replay(pid, case):
     r = adapters.analyse(case["name"], case["text"])
     got = prot(r)
     v = case["variant"]
+    if v == "G9":
+        r = via_symlink(case["name"], case["text"], case["target"])
+        ref = prot(adapters.analyse(case["name"], case["text"]))
+        return [] if r.status not in ("FATAL", "CRASH") and prot(r) == ref else [("C14|G9|symlink|%s" % ("G0" if not ref else "G1"), "%s vs %s" % (prot(r), ref))]
     if case["as_c"]:
         return [("C14|G8|%s" % got[0], str(got))] if got else []
     if v == "G0":
